@@ -280,7 +280,8 @@ PROPS["C16"] = dict(
          "the channel is closed, the producer goroutine is gone afterwards, no panic; the token texts occur in the input left to right without overlap (earliest-match embedding); exactly one "
          "end-of-input or error token, as the last one. Across runs: the token sequence (types, texts, error messages) is identical to the reference run whatever the capacity and interleaving. "
          "Labelled input-level probe (not simulation): for inputs that lex without error, replacing every white-space gap between two tokens by other white space, and flipping the letter case of "
-         "keyword tokens / literal type names, leaves types and texts (up to case) unchanged. Non-trivial: more than one token and at least one scheduling decision with >= 2 runnable tasks; "
+         "keyword tokens / literal type names, leaves types and texts (up to case) unchanged; 8% of the inputs are the printed form of one vocabulary value (node, predicate, literal without embedded "
+         "quotes, binding, blank node, bound), which has to come out as exactly one token carrying that text. Non-trivial: more than one token and at least one scheduling decision with >= 2 runnable tasks; "
          "distinct = distinct inputs",
     components_real=["bql/lexer (real code, instrumented scratch copy: the producer goroutine is scheduled by the seed)"],
     components_stub=["consumer task draining the token channel (harness)", "seeded scheduler in a synctest bubble (x/sim)"],
